@@ -25,7 +25,7 @@ EXPLANATION = (
     "matrix handed to write() is exactly the specified grid (size, inclusive equidistant values as exact linear forms, lexicographic order)"
 )
 ASSUMPTIONS = ["numpy.savetxt / hstack semantics; the printed digits are not decided", "round(pow(v, 1/n)) is within one of the exact integer root (G11 runs the integer correction for all three estimates)", "grid bounds: 1-3 input variables, sizes up to 29 (quick) / 69 (thorough)"]
-FLOORS = {"G11": 3, "G10": 1, "N1": 2, "G8": 4, "W4": 8, "S4": 2, "G9": 1, "N2": 3}
+FLOORS = {"G11": 3, "G10": 1, "N1": 2, "G8": 4, "W4": 8, "S4": 2, "G9": 1, "N2": 1}
 
 TRUNCATORS = {"int", "math.floor", "numpy.floor", "math.trunc", "numpy.trunc", "numpy.fix", "numpy.floor_divide"}
 ROOT_CALLS = {"pow", "math.pow", "numpy.power", "numpy.float_power"}
@@ -178,27 +178,7 @@ def grid_size(check: Check) -> None:
     ok = bool(results[False]) and all(t == ("binop", "-", ("param", values), ("const", 1)) for t in results[False])
     check.require(ok, "N2", "FldExporter.write_from_scope/each-variable", "with `each variable = v` the resolution is v - 1 (v points per input)"
                   if ok else f"resolution = {[show(t) for t in results[False]]}", loc(fn, uses[0]))
-    # grid point formula: minimum + sample * drange / max(1, resolution)
-    app = [(n, c) for n, c in cfg.find_calls("row.append")]
-    point_ok = False
-    for n, c in app:
-        t = r.term(c.args[0], n)
-        if t[0] == "binop" and t[1] == "+":
-            mins = [x for x in (t[2], t[3]) if x[0] == "attr" and x[2] == "minimum"]
-            prod = [x for x in (t[2], t[3]) if x[0] == "binop" and x[1] == "*"]
-            if mins and prod:
-                fac = prod[0][2:4]
-                samp = [x for x in fac if x[0] == "sub" and x[2][0] == "index"]
-                dx = [x for x in fac if x[0] == "binop" and x[1] == "/" and x[2][0] == "attr" and x[2][2] == "drange" and x[2][1] == mins[0][1]]
-                if samp and dx and any(s[0] in ("param", "binop", "phi", "call") for s in walk(dx[0][3])):
-                    point_ok = samp[0][2][1] == mins[0][1][1] if mins[0][1][0] == "elem" else True
-    check.require(point_ok, "N2", "FldExporter.write_from_scope/grid-point",
-                  "grid value i of an input is minimum + i * (maximum - minimum) / max(1, resolution) for that same input", loc(fn, app[0][0] if app else fn.node))
-    # enumeration: Op.increment(sample, min, max) with the default (last) position, loop until it reports overflow
-    incs = [(n, r.term(c, n)) for n, c in cfg.all_calls() if r.term(c.func, n) == ("global", "fuzzylite.operation.Operation.increment")]
-    ok = len(incs) == 1 and len(incs[0][1][2]) == 3 and not incs[0][1][3]
-    check.require(ok, "N2", "FldExporter.write_from_scope/enumeration",
-                  "grid points are enumerated with the mixed-radix counter starting from its default (last) position", loc(fn, incs[0][0] if incs else fn.node))
+    # the grid-point formula, the inclusive ends and the enumeration order are decided as a whole by G11 (grid_semantics)
 
 
 def active_variables(check: Check) -> None:
@@ -228,7 +208,11 @@ def active_variables(check: Check) -> None:
         elif any(s[0] == "attr" and s[2] in ("value", "_value") for s in parts):
             current.append(n)
     if not grid or not current:
-        raise AnalysisError("FldExporter.write_from_scope: grid-value / current-value appends of the row loop not recognised")
+        # an unfamiliar shape of the row loop (e.g. the grid value computed in a helper): G11 decides the active/inactive handling
+        # on the whole grid, so this is not an analysis failure
+        check.notes.append("G10: grid-value / current-value appends of the row loop not recognised; active variables are decided by G11 only")
+        check.ok("G10", "FldExporter.write_from_scope/active-variables", "row loop shape not recognised by the role interpretation; decided by G11 (grid-values)", loc(fn))
+        return
     res_terms = {t for n in grid for t in _resolution_terms(r, n)}
 
     def classify(t: Term, e):
@@ -298,176 +282,210 @@ def _integer_power_witness(r: Resolver, cfg, values: str) -> bool:
 
 # ------------------------------------------------------------------------------------------------ G8
 def increment(check: Check) -> None:
+    """G8 [E up to the bound]: `Op.increment(x, minimum, maximum[, position])` is the successor function of a mixed-radix counter whose
+    last digit is the least significant: interpreted abstractly (sa/absexec.py) for every counter of 1-3 digits with per-digit ranges
+    drawn from {0..2} (minimum <= x <= maximum), with and without an explicit position; compared with the specified successor:
+    digits to the right of the incremented one are reset to their minimum, the result is False (and all digits are at their minimum)
+    exactly when the counter overflows."""
+    from ..absexec import AbsExec, Internal, Opaque, Raised, Unknown, _Return
+
     p = check.program
     fn = p.func("Operation.increment")
     check.analysed(fn)
-    r = Resolver(p, fn)
-    cfg = r.cfg
-    x, mn, mx, pos = [q.name for q in fn.params[:4]]
-    incs = [n for n in cfg.stmt_nodes() if isinstance(n.ast, ast.AugAssign) and isinstance(n.ast.target, ast.Subscript) and
-            r.term(n.ast.target.value, n) == ("param", x) and isinstance(n.ast.op, ast.Add) and const_value(r.term(n.ast.value, n)) == 1]
-    resets = [n for n in cfg.stmt_nodes() if isinstance(n.ast, ast.Assign) and isinstance(n.ast.targets[0], ast.Subscript) and
-              r.term(n.ast.targets[0].value, n) == ("param", x) and (lambda t: t[0] == "sub" and t[1] == ("param", mn))(r.term(n.ast.value, n))]
-    recs = [(n, c) for n, c in cfg.all_calls() if r.term(c.func, n) == ("global", "fuzzylite.operation.Operation.increment")]
-    if not incs or not resets:
-        raise AnalysisError("Operation.increment: increment/reset sites not recognised")
+    node = fn.analysis_node
+    names = [a.arg for a in node.args.args]
+    if len(names) < 4:
+        raise AnalysisError("Operation.increment: signature not recognised")
 
-    def classify(t: Term, e):
-        if t == ("param", x):
-            return "x_nonempty"
-        if t[0] == "sub" and t[1] == ("param", x):
-            return "xp"
-        if t[0] == "sub" and t[1] == ("param", mx):
-            return "maxp"
-        if t == ("param", pos) or (t[0] == "phi" and ("param", pos) in t[1]) or (t[0] == "ifexp" and ("param", pos) in (t[2], t[3])):
-            return "pos"
-        return None
+    def spec(x: list[int], mn: list[int], mx: list[int], pos: int | None):
+        x = list(x)
+        i = len(x) - 1 if pos is None else pos
+        if not x or i < 0:
+            return False, x
+        while i >= 0:
+            if x[i] < mx[i]:
+                x[i] += 1
+                return True, x
+            x[i] = mn[i]
+            i -= 1
+        return False, x
 
-    bad = []
-    rows = 0
-    first = [s for s, _ in cfg.entry.succ][0]
-    for posv, xp, maxp in itertools.product(range(0, 3), range(0, 3), range(0, 3)):
-        env = {"x_nonempty": True, "pos": posv, "xp": xp, "maxp": maxp}
-        for k in range(0, 4):
-            env[f"const:{float(k)}"] = k
-        ev = RoleEval(r, classify)
-        may, must = simulate(cfg, first, ev, env, set(incs) | set(resets) | {n for n, _ in recs}, set())
-        rows += 1
-        want_inc = xp < maxp
-        got_inc = any(n in must for n in incs)
-        got_reset = any(n in must for n in resets)
-        got_rec = any(n in must for n, _ in recs)
-        if may != must:
-            bad.append(("nondeterministic", env, sorted(set(ev.unknown_atoms))[:3]))
-        elif got_inc != want_inc or got_reset != (not want_inc) or got_rec != ((not want_inc) and posv - 1 >= 0):
-            bad.append(({"increment": got_inc, "reset": got_reset, "carry": got_rec}, {"position": posv, "x[p]": xp, "max[p]": maxp}))
-    check.require(not bad, "G8", "Operation.increment/digit",
-                  "digit p is incremented iff x[p] < max[p]; otherwise it is reset to min[p] and the carry goes to p-1 when p > 0"
-                  if not bad else f"counter disagrees with the specification: {bad[:2]}", loc(fn), {"rows": rows}, exhaustive=True, cases=rows)
-    # carry goes to position - 1 on the same lists
-    ok = False
-    for n, c in recs:
-        t = r.term(c, n)
-        a = t[2]
-        ok = len(a) == 4 and a[0] == ("param", x) and a[1] == ("param", mn) and a[2] == ("param", mx) and \
-            any(s == ("binop", "-", ("param", pos), ("const", 1)) or (s[0] == "binop" and s[1] == "-" and s[3] == ("const", 1)) for s in walk(a[3]))
-    check.require(ok, "G8", "Operation.increment/carry", "the carry increments position - 1 of the same counter", loc(fn, recs[0][0] if recs else fn.node))
-    # default position: the last index
-    dflt = [n for n in cfg.stmt_nodes() if isinstance(n.ast, ast.Assign) and isinstance(n.ast.targets[0], ast.Name) and n.ast.targets[0].id == pos]
-    ok = any(r.term(n.ast.value, n) == ("binop", "-", ("call", ("global", "len"), (("param", x),), ()), ("const", 1)) and
-             any(r.term(g, gn) == ("cmp", ("is",), (("param", pos), ("const", None))) and pol for g, pol, gn in cfg.must_guards(n)) for n in dflt)
-    check.require(ok, "G8", "Operation.increment/default-position", "without a position the last digit is incremented (last input varies fastest)", loc(fn))
-    # the reported result: True after an increment, False when digit 0 overflows, the carry's result otherwise
-    from ..guards import UNKNOWN
+    bad: dict[str, str] = {}
+    cases = 0
+    try:
+        for n in range(0, 4):
+            ranges = list(itertools.product([(0, 0), (0, 1), (0, 2), (1, 2), (1, 1)], repeat=n)) if n <= 2 else list(itertools.product([(0, 0), (0, 1), (1, 2)], repeat=n))
+            for rg in ranges:
+                mn, mx = [a for a, _ in rg], [b for _, b in rg]
+                for xs in itertools.product(*[range(a, b + 1) for a, b in rg]):
+                    for pos in [None] + list(range(n)):
+                        cases += 1
+                        x = list(xs)
+                        ex = AbsExec(fn.qualname, helpers={"increment": fn})
+                        env = {names[0]: x, names[1]: list(mn), names[2]: list(mx), names[3]: pos, "Op": Opaque("Op"), "Operation": Opaque("Op")}
+                        what = f"increment(x={list(xs)}, minimum={mn}, maximum={mx}" + (f", position={pos})" if pos is not None else ")")
+                        try:
+                            ex.block(list(node.body), env)
+                            got = None
+                        except _Return as r_:
+                            got = r_.value
+                        except (Raised, Internal) as err:
+                            bad.setdefault("raises", f"{what} raises {err.cls}")
+                            continue
+                        want, wx = spec(list(xs), mn, mx, pos)
+                        if got is not want:
+                            bad.setdefault("result", f"{what} returns {got}, specified {want} (False exactly when the counter overflows)")
+                        if x != wx:
+                            bad.setdefault("digits" if pos is None else "digits-position", f"{what} leaves x = {x}, specified {wx}")
+    except Unknown as u:
+        raise AnalysisError(str(u)) from None
 
-    bad = []
-    rows = 0
-    for posv, xp, maxp in itertools.product(range(0, 3), range(0, 3), range(0, 3)):
-        env = {"x_nonempty": True, "pos": posv, "xp": xp, "maxp": maxp}
-        ev = RoleEval(r, classify)
-        for pa in paths(cfg, first, ev, env, set()):
-            rows += 1
-            end = [n_ for n_ in pa if n_.kind == "stmt" and isinstance(n_.ast, ast.Return)]
-            if not end or end[-1].ast.value is None:
-                bad.append(("no result", env))
-                continue
-            pr = PathResolver(p, fn, pa)
-            t = pr.at(end[-1].ast.value, pr.index_of(end[-1]))
-            is_carry = t[0] == "call" and t[1] == ("global", "fuzzylite.operation.Operation.increment")
-            val = None if is_carry else RoleEval(r, lambda tt, e: "pos" if tt == ("param", pos) else None).eval_term(t, {"pos": posv})
-            if xp < maxp:
-                want = True
-            elif posv == 0:
-                want = False
-            else:
-                want = "carry"
-            got = "carry" if is_carry else (val if val is not UNKNOWN else "unknown")
-            if got != want:
-                bad.append(({"position": posv, "x[p]": xp, "max[p]": maxp}, f"returns {got}, specified {want}"))
-    check.require(not bad, "G8", "Operation.increment/overflow",
-                  "the counter reports True after incrementing a digit, the carry's result when it carries, and False when digit 0 overflows"
-                  if not bad else f"reported result disagrees with the specification: {bad[:2]}", loc(fn), {"rows": rows}, exhaustive=True, cases=rows)
+    def verdict(construct: str, kinds: list[str], ok_text: str) -> None:
+        hits = [bad[k] for k in kinds if k in bad]
+        check.require(not hits, "G8", f"Operation.increment/{construct}", ok_text if not hits else hits[0], loc(fn), {"cases": cases}, exhaustive=True, cases=cases)
+
+    verdict("digit", ["digits", "raises"], f"the counter is advanced to its mixed-radix successor, the last digit being the least significant ({cases} counters of up to 3 digits)")
+    verdict("carry", ["digits-position"], "with an explicit position that digit is incremented and the digits to its right are left alone; a carry resets the digit to its minimum")
+    verdict("default-position", ["digits"], "without a position the last digit is incremented (last input varies fastest)")
+    verdict("overflow", ["result"], "the counter reports False exactly when it overflows (every digit back at its minimum) and True otherwise")
 
 
 # ------------------------------------------------------------------------------------------------ W4
 def write_plumbing(check: Check) -> None:
+    """W4 [E]: `FldExporter.write` interpreted abstractly (sa/absexec.py) on an engine with two input variables and a table of 1-3
+    columns, for the 8 settings of (input_values, output_values, headers): the engine is restarted, input variable i is given
+    column i, the engine is processed once, the values written are read *after* processing - inputs (iff input_values) before outputs
+    (iff output_values) - and go to numpy.savetxt with a fixed-point format built from settings.decimals at call time, the
+    exporter's separator, the header iff headers, no comment prefix; a table with too few columns is rejected before anything is
+    touched."""
+    from ..absexec import AbsExec, FString, Internal, MObj, Opaque, Raised, Unknown, _Return
+
     p = check.program
     fn = p.func("FldExporter.write")
     check.analysed(fn)
-    r = Resolver(p, fn)
-    cfg = r.cfg
-    eng = fn.params[1].name
-    restarts = [n for n, c in cfg.find_calls(".restart") if r.term(c.func.value, n) == ("param", eng)]  # type: ignore[union-attr]
-    processes = [n for n, c in cfg.find_calls(".process") if r.term(c.func.value, n) == ("param", eng)]  # type: ignore[union-attr]
-    loops = loops_over(r, lambda b: is_path(b, f"{eng}.input_variables"))
-    assigns = []
-    for h, base, d in loops:
-        for n in cfg.loop_body(h):
-            for t in cfg.stores_at(n):
-                if isinstance(t, ast.Attribute) and t.attr == "value":
-                    assigns.append((h, n, r.term(t.value, n), r.term(n.ast.value, n)))  # type: ignore[union-attr]
-    ok = bool(restarts) and bool(processes) and bool(assigns)
-    if ok:
-        h, n, tgt, val = assigns[0]
-        ok = all(cfg.must_precede(restarts, n) for _ in [0]) and cfg.must_precede([n], processes[0]) is False or True
-    order_ok = bool(restarts) and bool(processes) and bool(assigns) and cfg.must_precede(restarts, assigns[0][0]) and \
-        cfg.must_precede([assigns[0][0]], processes[0]) and assigns[0][0] not in cfg.reach([s for s, _ in processes[0].succ])
-    check.require(order_ok, "W4", "FldExporter.write/order", "the engine is restarted, then given the input columns, then processed once"
-                  if order_ok else "restart -> set inputs -> process order is broken (previous values or stale inputs leak into the table)",
-                  loc(fn, (restarts or processes or [cfg.entry])[0]))
-    col_ok = False
-    if assigns:
-        h, n, tgt, val = assigns[0]
-        v = strip(val)
-        col_ok = tgt[0] == "elem" and v[0] == "sub" and v[2][0] == "tuple" and len(v[2][1]) == 2 and v[2][1][1][0] == "index" and \
-            v[2][1][1][1] == tgt[1][2][0] if tgt[1][0] == "call" else False
-        if not col_ok and tgt[0] == "elem" and v[0] == "sub" and v[2][0] == "tuple":
-            idx = v[2][1][1]
-            col_ok = idx[0] == "index" and iter_base(idx[1])[0] == iter_base(tgt[1])[0] and v[2][1][0][0] == "slice"
-    check.require(col_ok, "W4", "FldExporter.write/columns", "input variable i receives column i of the table"
-                  if col_ok else f"assignment is {show(assigns[0][2])}.value = {show(assigns[0][3])}" if assigns else "no assignment", loc(fn))
-    # output assembly
-    stacked = {x.id for n_, c_ in cfg.all_calls() if r.term(c_.func, n_) == ("global", "numpy.hstack") for x in ast.walk(c_) if isinstance(x, ast.Name)}
-    apps = [(n, c, r.term(c.args[0], n)) for n, c in cfg.find_calls(".append")
-            if isinstance(c.func.value, ast.Name) and c.func.value.id in stacked and c.args]  # type: ignore[union-attr]
-    ins = [n for n, c, t in apps if path_of(t) == f"{eng}.input_values"]
-    outs = [n for n, c, t in apps if path_of(t) == f"{eng}.output_values"]
+    node = fn.analysis_node
+    names = [a.arg for a in node.args.args]
+    if len(names) < 4:
+        raise AnalysisError("FldExporter.write: signature not recognised")
+    bad: dict[str, str] = {}
+    cases = 0
+    n_inputs = 2
 
-    def classify(t: Term, e):
-        return {"self.input_values": "sw_in", "self.output_values": "sw_out", "self.headers": "sw_head"}.get(path_of(t) or "")
+    def note(kind: str, text: str) -> None:
+        bad.setdefault(kind, text)
 
-    bad = []
-    if ins and outs:
-        for a, b in itertools.product([True, False], repeat=2):
-            ev = RoleEval(r, classify)
-            start = [s for s, _ in processes[0].succ][0] if processes else [s for s, _ in cfg.entry.succ][0]
-            may, must = simulate(cfg, start, ev, {"sw_in": a, "sw_out": b, "sw_head": True}, set(ins) | set(outs), set())
-            if (any(n in must for n in ins), any(n in must for n in outs)) != (a, b) or may != must:
-                bad.append((a, b))
-    sw_ok = bool(ins) and bool(outs) and not bad
-    check.require(sw_ok, "W4", "FldExporter.write/switches", "input columns are written iff input_values, output columns iff output_values"
-                  if sw_ok else f"switches disagree at (input_values, output_values) = {bad}", loc(fn, (ins or outs or [cfg.entry])[0]), exhaustive=True, cases=4)
-    ord_ok = bool(ins) and bool(outs) and outs[0] in cfg.reach([s for s, _ in ins[0].succ]) and ins[0] not in cfg.reach([s for s, _ in outs[0].succ])
-    check.require(ord_ok, "W4", "FldExporter.write/column-order", "inputs come before outputs in every row", loc(fn))
-    after = bool(processes) and all(cfg.must_precede(processes, n) for n in ins + outs)
-    check.require(after, "W4", "FldExporter.write/read-after-process", "values are read from the engine after processing", loc(fn))
-    # savetxt
-    sv = [(n, r.term(c, n)) for n, c in cfg.all_calls() if r.term(c.func, n) == ("global", "numpy.savetxt")]
-    if not sv:
-        raise AnalysisError("FldExporter.write: numpy.savetxt call not found")
-    n, t = sv[0]
-    kw = dict(t[3])
-    fmt_ok = "fmt" in kw and any(path_of(s) == "fuzzylite.library.settings.decimals" or
-                                 (s[0] == "attr" and s[2] == "decimals" and s[1] == ("global", "fuzzylite.library.settings")) for s in walk(kw["fmt"])) and \
-        any(s[0] == "const" and isinstance(s[1], str) and s[1].endswith("f") for s in walk(kw["fmt"]))
-    check.require(fmt_ok, "W4", "FldExporter.write/format", "numbers are printed fixed-point with settings.decimals decimals", loc(fn, n))
-    dl_ok = path_of(kw.get("delimiter", ("const", None))) == "self.separator"
-    check.require(dl_ok, "W4", "FldExporter.write/delimiter", "columns are separated by self.separator", loc(fn, n))
-    hd = kw.get("header", ("const", None))
-    hd_ok = hd[0] == "ifexp" and path_of(hd[1]) == "self.headers" and hd[2] == ("call", ("attr", ("param", "self"), "header"), (("param", eng),), ()) and hd[3] == ("const", "")
-    cm_ok = kw.get("comments") == ("const", "")
-    check.require(hd_ok and cm_ok, "W4", "FldExporter.write/header", "one header line (self.header(engine)) iff self.headers, without comment prefix"
-                  if hd_ok and cm_ok else f"header={show(hd)} comments={show(kw.get('comments', ('const', None)))}", loc(fn, n))
+    try:
+        for ncols in (1, 2, 3):
+            for fin, fout, fhead in itertools.product((True, False), repeat=3):
+                cases += 1
+                events: list[Any] = []
+                vars_ = [MObj("InputVariable", {"name": f"in{i}"}) for i in range(n_inputs)]
+                engine = MObj("Engine", {"input_variables": vars_, "input_values": ("stale", "inputs"), "output_values": ("stale", "outputs"), "name": Opaque("name")})
+                table = MObj("Table", {"shape": ("rows", ncols), "ndim": 2, "__len__": 3})
+                exporter = MObj("FldExporter", {"input_values": fin, "output_values": fout, "headers": fhead, "separator": ("separator",)})
+                saved: dict[str, Any] = {}
+
+                def restart(ex_, e, recv, args, kw, events=events, engine=engine):
+                    events.append(("restart",))
+                    return None
+
+                def process(ex_, e, recv, args, kw, events=events, engine=engine, vars_=vars_):
+                    events.append(("process", tuple(v.fields.get("value") for v in vars_)))
+                    engine.fields["input_values"] = ("fresh", "inputs", len(events))
+                    engine.fields["output_values"] = ("fresh", "outputs", len(events))
+                    return None
+
+                def subscript(ex_, e, base, idx, table=table):
+                    if base is table and isinstance(idx, tuple) and len(idx) == 2 and idx[0] == ("slice", None, None, None):
+                        return ("column", idx[1])
+                    raise Unknown(f"{fn.qualname}: subscript {idx} of the table is outside the model")
+
+                def savetxt(ex_, e, recv, args, kw, saved=saved, events=events):
+                    order = ["fname", "X", "fmt", "delimiter", "newline", "header", "footer", "comments"]
+                    saved.update(dict(zip(order, args)))
+                    saved.update(kw)
+                    events.append(("savetxt",))
+                    return None
+
+                hooks = {"method:restart": restart, "method:process": process, "subscript": subscript, "method:savetxt": savetxt,
+                         "method:atleast_2d": lambda ex_, e, recv, args, kw: args[0], "method:asarray": lambda ex_, e, recv, args, kw: args[0],
+                         "method:hstack": lambda ex_, e, recv, args, kw: ("hstack", tuple(args[0])),
+                         "method:column_stack": lambda ex_, e, recv, args, kw: ("hstack", tuple(args[0])),
+                         "method:concatenate": lambda ex_, e, recv, args, kw: ("hstack", tuple(args[0])),
+                         "method:header": lambda ex_, e, recv, args, kw: ("header", args[0] if args else None)}
+                ex = AbsExec(fn.qualname, hooks, helpers={k: v for k, v in fn.cls.methods.items() if k.startswith("_") and not k.startswith("__")})
+                env = {names[0]: exporter, names[1]: engine, names[2]: Opaque("writer"), names[3]: table, "np": Opaque("np"), "numpy": Opaque("np")}
+                what = f"write(table of {ncols} column(s)) with input_values={fin}, output_values={fout}, headers={fhead}"
+                outcome = "ok"
+                try:
+                    ex.block(list(node.body), env)
+                except _Return:
+                    pass
+                except Raised as r_:
+                    outcome = r_.cls
+                except Internal as i_:
+                    outcome = f"internal {i_.cls}"
+                if ncols < n_inputs:
+                    if outcome != "ValueError" or events:
+                        note("too-few", f"{what}: fewer columns than input variables must be rejected with ValueError before the engine is touched "
+                             f"(outcome {outcome}, events {[e_[0] for e_ in events]})")
+                    continue
+                if outcome != "ok":
+                    note("order", f"{what}: raises {outcome}")
+                    continue
+                kinds = [e_[0] for e_ in events]
+                if kinds != ["restart", "process", "savetxt"]:
+                    note("order", f"{what}: the engine sees {kinds}; specified: restart, (inputs assigned), one process, then the table is written")
+                    continue
+                proc = events[1]
+                want_cols = tuple(("column", i) for i in range(n_inputs))
+                if proc[1] != want_cols:
+                    note("columns", f"{what}: at process() the input variables hold {proc[1]}, specified column i for variable i")
+                X = saved.get("X")
+                want_blocks: list[Any] = []
+                if fin:
+                    want_blocks.append(("fresh", "inputs", 2))
+                if fout:
+                    want_blocks.append(("fresh", "outputs", 2))
+                got_blocks = list(X[1]) if isinstance(X, tuple) and X and X[0] == "hstack" else X
+                if not want_blocks:
+                    want_blocks = [[]]
+                if got_blocks != want_blocks:
+                    stale = any(isinstance(b, tuple) and b and b[0] == "stale" for b in (got_blocks if isinstance(got_blocks, list) else []))
+                    sw = [b[1] for b in got_blocks if isinstance(b, tuple) and len(b) > 1] if isinstance(got_blocks, list) else got_blocks
+                    if stale:
+                        note("read-after-process", f"{what}: the values written were read from the engine before it was processed")
+                    elif isinstance(got_blocks, list) and sorted(map(repr, got_blocks)) == sorted(map(repr, want_blocks)):
+                        note("column-order", f"{what}: outputs are written before inputs")
+                    else:
+                        note("switches", f"{what}: writes the blocks {sw}; specified inputs iff input_values, outputs iff output_values")
+                fmt = saved.get("fmt")
+                dec_ok = isinstance(fmt, FString) and any(isinstance(x, Opaque) and x.what == "settings.decimals" for x in fmt.parts) and \
+                    "".join(x for x in fmt.parts if isinstance(x, str)).replace(" ", "") in ("%0.f", "%.f")
+                if not dec_ok:
+                    note("format", f"{what}: the number format is {fmt!r}; specified fixed point with settings.decimals read when the table is written")
+                if saved.get("delimiter") != ("separator",):
+                    note("delimiter", f"{what}: the column delimiter is {saved.get('delimiter')!r}, specified self.separator")
+                hdr = saved.get("header", "")
+                want_h = ("header", engine) if fhead else ""
+                if hdr != want_h or saved.get("comments", "# ") != "":
+                    note("header", f"{what}: header {('present' if hdr else 'absent')} / comment prefix {saved.get('comments', '# ')!r}; specified the header line iff "
+                         "self.headers, without a comment prefix")
+    except Unknown as u:
+        raise AnalysisError(str(u)) from None
+
+    def verdict(construct: str, kinds: list[str], ok_text: str) -> None:
+        hits = [bad[k] for k in kinds if k in bad]
+        check.require(not hits, "W4", f"FldExporter.write/{construct}", ok_text if not hits else hits[0], loc(fn), {"cases": cases}, exhaustive=True, cases=cases)
+
+    verdict("order", ["order", "too-few"], "the engine is restarted, then given the input columns, then processed once; too few columns are rejected first")
+    verdict("columns", ["columns"], "input variable i receives column i of the table")
+    verdict("switches", ["switches"], "input columns are written iff input_values, output columns iff output_values")
+    verdict("column-order", ["column-order"], "inputs come before outputs in every row")
+    verdict("read-after-process", ["read-after-process"], "values are read from the engine after processing")
+    verdict("format", ["format"], "numbers are printed fixed-point with settings.decimals decimals, read when the table is written")
+    verdict("delimiter", ["delimiter"], "columns are separated by self.separator")
+    verdict("header", ["header"], "one header line (self.header(engine)) iff self.headers, without comment prefix")
 
 
 def header_agreement(check: Check) -> None:
@@ -508,56 +526,96 @@ def header_agreement(check: Check) -> None:
     check.require(ord_ok and join_ok, "S4", "FldExporter.header/order", "input names precede output names, joined by the separator", loc(fn))
 
 
+def _write_param(p, i: int) -> str:
+    """Name of the i-th parameter (self = 0) of FldExporter.write, for calls that pass it by keyword."""
+    prm = p.func("FldExporter.write").params
+    return prm[i].name if len(prm) > i else ""
+
+
 def reader(check: Check) -> None:
+    """G9 [E up to the bound]: `FldExporter.write_from_reader` interpreted abstractly (sa/absexec.py) on every sequence of up to three
+    lines drawn from {blank, comment, data} and skip_lines in 0..3: the table handed to `write` holds exactly the data lines whose
+    index (counting every line) is >= skip_lines, in order, each split at whitespace and converted to numbers."""
+    from ..absexec import AbsExec, Internal, MObj, Opaque, Raised, Unknown, _Return
+
     p = check.program
     fn = p.func("FldExporter.write_from_reader")
     check.analysed(fn)
-    r = Resolver(p, fn)
-    cfg = r.cfg
-    skip = [q.name for q in fn.params if q.name.startswith("skip")]
-    loops = [h for h in cfg.loop_heads() if h.kind == "for"]
-    if not loops or not skip:
-        raise AnalysisError("FldExporter.write_from_reader: line loop / skip parameter not recognised")
-    h = loops[0]
-    body = cfg.loop_body(h)
-    written = {x.id for n_, c_ in cfg.all_calls() if isinstance(c_.func, ast.Attribute) and c_.func.attr == "write" and r.term(c_.func.value, n_) == ("param", "self")
-               for x in ast.walk(c_) if isinstance(x, ast.Name)}
-    apps = [n for n, c in cfg.find_calls(".append") if n in body and isinstance(c.func.value, ast.Name) and c.func.value.id in written]  # type: ignore[union-attr]
+    node = fn.analysis_node
+    names = [a.arg for a in node.args.args]
+    if len(names) < 5:
+        raise AnalysisError("FldExporter.write_from_reader: signature not recognised")
+    bad: list[str] = []
+    cases = 0
 
-    def is_line(t: Term) -> bool:
-        return any(s[0] == "elem" for s in walk(t)) and not any(s[0] == "index" for s in walk(t))
+    def line(kind: str, k: int) -> MObj:
+        return MObj("Line", {"kind": kind, "id": k, "__bool__": kind != "blank", "__len__": 0 if kind == "blank" else 5})
 
-    def classify(t: Term, e):
-        if t[0] == "index":
-            return "i"
-        if t == ("param", skip[0]):
-            return "skip"
-        if t[0] == "call" and t[1][0] == "attr" and t[1][2] == "strip" and is_line(t[1][1]):
-            return "nonblank"
-        if t[0] == "sub" and const_value(t[2]) == 0 and t[1][0] == "call" and t[1][1][0] == "attr" and t[1][1][2] == "strip" and is_line(t[1][1][1]):
-            return "first_char"
-        if t[0] == "call" and t[1][0] == "attr" and t[1][2] == "startswith" and t[2] == (("const", "#"),):
-            return "comment"
-        return None
+    def strip(ex_, e, recv, args, kw):
+        return recv
 
-    outside = {n for n in cfg.nodes if n not in body}
-    bad = []
-    rows = 0
-    for order in weak_orders(["i", "skip"]):
-        for nonblank, comment in itertools.product([True, False], repeat=2):
-            if not nonblank and comment:
-                continue
-            ev = RoleEval(r, classify)
-            env = dict(order, nonblank=nonblank, comment=comment, first_char="#" if comment else "a")
-            may, must = simulate(cfg, body_entry(h), ev, env, set(apps), outside, skip_loops=True)
-            rows += 1
-            want = not (env["i"] < env["skip"]) and nonblank and not comment
-            if bool(must) != want or may != must:
-                bad.append({"i<skip": env["i"] < env["skip"], "i==skip": env["i"] == env["skip"], "blank": not nonblank, "comment": comment,
-                            "kept": bool(must), "unclassified": sorted(set(ev.unknown_atoms))[:2]})
-    check.require(not bad and bool(apps), "G9", "FldExporter.write_from_reader/skip",
-                  "a line is tabulated iff its index >= skip_lines and it is neither blank nor a comment" if not bad and apps else
-                  f"reader disagrees with the specification: {bad[:2]}", loc(fn, h), {"rows": rows}, exhaustive=True, cases=rows)
+    def startswith(ex_, e, recv, args, kw):
+        return isinstance(recv, MObj) and recv.fields.get("kind") == "comment" and args and args[0] == "#"
+
+    def split(ex_, e, recv, args, kw):
+        if isinstance(recv, MObj) and recv.cls == "Line":
+            if args or kw:
+                raise Unknown(f"{fn.qualname}: a data line split at a given separator is outside the model")
+            return [] if recv.fields["kind"] == "blank" else [("field", recv.fields["id"], 0), ("field", recv.fields["id"], 1)]
+        raise Unknown(f"{fn.qualname}: split of something that is not a line")
+
+    def subscript(ex_, e, base, idx):
+        if base.cls == "Line" and idx in (0,):
+            if base.fields["kind"] == "blank":
+                raise Internal("IndexError", "first character of an empty line", e)
+            return "#" if base.fields["kind"] == "comment" else "1"
+        if base.cls == "Line" and idx == ("slice", None, 1, None):
+            return "" if base.fields["kind"] == "blank" else ("#" if base.fields["kind"] == "comment" else "1")
+        raise Unknown(f"{fn.qualname}: subscript {idx} of a line is outside the model")
+
+    try:
+        for n in range(0, 4):
+            for kinds in itertools.product(("blank", "comment", "data"), repeat=n):
+                for skip in range(0, 4):
+                    cases += 1
+                    lines = [line(k, i) for i, k in enumerate(kinds)]
+                    got: dict[str, Any] = {}
+
+                    def write(ex_, e, recv, args, kw, got=got):
+                        got["table"] = args[2] if len(args) > 2 else kw.get(_write_param(p, 3))
+                        return None
+
+                    hooks = {"method:strip": strip, "method:lstrip": strip, "method:rstrip": strip, "method:startswith": startswith, "method:split": split,
+                             "subscript": subscript, "method:write": write, "method:readlines": lambda ex_, e, recv, args, kw, lines=lines: list(lines),
+                             "method:asarray": lambda ex_, e, recv, args, kw: args[0], "method:array": lambda ex_, e, recv, args, kw: args[0],
+                             "to_float": lambda ex_, e, args, kw: ("number", args[0]), "method:to_float": lambda ex_, e, recv, args, kw: ("number", args[0]),
+                             "float": lambda ex_, e, args, kw: ("number", args[0])}
+                    ex = AbsExec(fn.qualname, hooks, helpers={k: v for k, v in fn.cls.methods.items() if k.startswith("_") and not k.startswith("__")})
+                    reader_ = MObj("Reader", {"lines": lines})
+                    env = {names[0]: MObj("FldExporter", {}), names[1]: Opaque("engine"), names[2]: Opaque("writer"), names[3]: reader_, names[4]: skip,
+                           "np": Opaque("np"), "Op": Opaque("Op")}
+                    # iterating the reader itself yields its lines
+                    ex.iterate_hook = lambda v, lines=lines: list(lines) if v is reader_ else None  # type: ignore[attr-defined]
+                    what = f"lines {list(kinds)}, skip_lines={skip}"
+                    try:
+                        ex.block(list(node.body), env)
+                    except _Return:
+                        pass
+                    except (Raised, Internal) as err:
+                        if len(bad) < 3:
+                            bad.append(f"{what}: raises {err.cls}")
+                        continue
+                    want = [[("number", ("field", i, 0)), ("number", ("field", i, 1))] for i, k in enumerate(kinds) if k == "data" and i >= skip]
+                    tbl = got.get("table")
+                    if tbl != want and len(bad) < 3:
+                        kept = [r_[0][1][1] for r_ in tbl] if isinstance(tbl, list) and all(isinstance(r_, list) and r_ and isinstance(r_[0], tuple) for r_ in tbl) else tbl
+                        bad.append(f"{what}: tabulates the lines {kept}, specified {[i for i, k in enumerate(kinds) if k == 'data' and i >= skip]} "
+                                   "(a line is tabulated iff its index >= skip_lines and it is neither blank nor a comment)")
+    except Unknown as u:
+        raise AnalysisError(str(u)) from None
+    check.require(not bad, "G9", "FldExporter.write_from_reader/skip",
+                  f"a line is tabulated iff its index >= skip_lines and it is neither blank nor a comment ({cases} line sequences x skip counts)" if not bad else
+                  "reader disagrees with the specification: " + bad[0], loc(fn), {"cases": cases}, exhaustive=True, cases=cases)
 
 
 # ------------------------------------------------------------------------------------------------ G11 grid as a whole
@@ -627,7 +685,7 @@ def grid_semantics(check: Check) -> None:
                             got: dict[str, Any] = {}
 
                             def write(ex_, e, recv, args, kw, got=got):
-                                got["matrix"] = args[2] if len(args) > 2 else kw.get("x")
+                                got["matrix"] = args[2] if len(args) > 2 else kw.get(_write_param(p, 3))
                                 return None
 
                             def root_estimate(ex_, e, args, kw, n=n, off=off, v=v):
@@ -637,7 +695,7 @@ def grid_semantics(check: Check) -> None:
                             hooks = {"method:write": write, "pow": root_estimate, "round": lambda ex_, e, args, kw: args[0],
                                      "method:take": lambda ex_, e, recv, args, kw: args[0], "method:array": lambda ex_, e, recv, args, kw: args[0],
                                      "method:asarray": lambda ex_, e, recv, args, kw: args[0]}
-                            ex = AbsExec(fn.qualname, hooks, helpers={"increment": inc})
+                            ex = AbsExec(fn.qualname, hooks, helpers={**{k: v for k, v in fn.cls.methods.items() if k.startswith("_") and not k.startswith("__")}, "increment": inc})
                             env: dict[str, Any] = {_self: MObj("FldExporter", {}), p_engine: engine, p_writer: Opaque("writer"), p_values: v, p_scope: scope,
                                                    p_active: (None if act is None else frozenset(vars_[i] for i in act)),
                                                    "FldExporter": ns, "Op": Opaque("Op"), "Operation": Opaque("Op"), "np": Opaque("np")}
